@@ -82,6 +82,12 @@ def real_op(fsys, op):
         if k == "removetree":
             fsys.removetree(op[1])
             return "ok true"
+        if k == "writebytes":
+            fsys.writebytes(op[1], data_for(op[3], op[2]))
+            return "ok true"
+        if k == "appendbytes":
+            fsys.appendbytes(op[1], data_for(op[3], op[2]))
+            return "ok true"
         if k == "fwrite":
             h = fsys.openbin(op[1], "r+b")
             h.seek(op[2])
@@ -252,6 +258,26 @@ def init_lines(w, keys):
     return lines
 
 
+def op_lines(op, keys, size_of):
+    """the primitive calls of the model that one real call amounts to.  fs.base's helpers:
+    writebytes = openbin("wb") [create if missing; truncate to 0] + write + close;
+    appendbytes = openbin("ab") [create if missing] + write at the end + close"""
+    k = op[0]
+    if k == "writebytes":
+        ls = [op_line(["create", op[1], False], keys), op_line(["ftrunc", op[1], 0], keys)]
+        if op[2] > 0:
+            ls.append(op_line(["fwrite", op[1], 0, op[2], 0], keys))
+        return ls
+    if k == "appendbytes":
+        ls = [op_line(["create", op[1], False], keys)]
+        if op[2] > 0:
+            ls.append(op_line(["fwrite", op[1], size_of(op[1]), op[2], 0], keys))
+        else:
+            ls.append(op_line(["fwrite", op[1], 0, 0, 0], keys))
+        return ls
+    return [op_line(op, keys)]
+
+
 def op_line(op, keys):
     k = op[0]
     p = natl(keys.path(op[1]))
@@ -321,7 +347,15 @@ def run_program(cfg, ops, res, device_every=1, stop_after=None):
             r = real_op(w.fs, op)
             results.append(r)
             wlogs.append([(e[1], e[2]) for e in w.dev.log if e[0] == "W"])
-            a = drv.ask(op_line(op, keys))
+            def size_of(path_, st=reals[-1][0]):
+                want = natl(keys.path(path_))
+                for lst in st["dirs"].values():
+                    for nd in lst:
+                        f_ = nd.split("/")
+                        if f_[0] == want:
+                            return int(f_[5])
+                return 0
+            a = [drv.ask(ln) for ln in op_lines(op, keys, size_of)]
             b = drv.ask("fs dump")
             idx.append((a, b))
             if want_check:
@@ -357,7 +391,11 @@ def run_program(cfg, ops, res, device_every=1, stop_after=None):
         if bad:
             stats["footprint"].append((i, bad))
     for i, (a, b) in enumerate(idx):
-        ans = out[a]
+        # a compound call answers with the first refusal of its primitive calls ("created: no" is not a refusal)
+        answers = [out[x] for x in a]
+        ans = next((x for x in answers if x.startswith("err")), answers[-1])
+        if len(answers) > 1 and not ans.startswith("err"):
+            ans = "ok true spec=ok true"
         model_res, _, spec_res = ans.partition(" spec=")
         real = results[i]
         if real.startswith("err"):
@@ -398,6 +436,8 @@ def oracle_at(cfg, ops, upto):
                 seq = [["open", "h", op[1], "r+"], ["seek", "h", pos, 0], ["write", "h", op[4], op[3]], ["close", "h"]]
             elif op[0] == "ftrunc":
                 seq = [["open", "h", op[1], "r+"], ["truncate", "h", op[2]], ["close", "h"]]
+            elif op[0] in ("writebytes", "appendbytes"):
+                seq = [[op[0], op[1], op[3], op[2]]]
             else:
                 seq = [op]
             hs = {}
@@ -478,6 +518,18 @@ def gen_program(r, nops, bpc, pool, deep=False):
             ops.append(["create", p, r.random() < 0.3])
             if p not in dirs:
                 files[p] = 0 if (p not in files or ops[-1][2]) else files[p]
+        elif c < 0.50:
+            p = fresh() if r.random() < 0.5 or not files else r.choice(sorted(files))
+            n = r.choice(sizes + [0])
+            tagc[0] += 1
+            if r.random() < 0.6:
+                ops.append(["writebytes", p, n, tagc[0]])
+                if p not in dirs:
+                    files[p] = n
+            else:
+                ops.append(["appendbytes", p, n, tagc[0]])
+                if p not in dirs:
+                    files[p] = files.get(p, 0) + n
         elif c < 0.62 and files:
             p = r.choice(sorted(files))
             size = files[p]
